@@ -1,12 +1,15 @@
 package rac
 
-import "io"
+import (
+	"hash/crc32"
+	"io"
+)
 
 // C14 (sequential half): rac.Reader with Concurrency == 0 against an in-memory model.
 
 // vhBuildFile writes the concrete payload with the real Writer and the stub codec.
 // LAYOUT 0: DChunkSize 4, index at end; 1: CChunkSize (2 data bytes), index at start, page 8;
-// 2: DChunkSize 3 with a shared resource, index at end.
+// 2: DChunkSize 3, index at end; 3: the hand-built three-level file of vhDeepFile.
 func vhBuildFile(payload []byte) []byte {
 	faults := &vhFaults{}
 	sink := &vhSink{f: faults}
@@ -31,11 +34,66 @@ func vhBuildFile(payload []byte) []byte {
 	return sink.data
 }
 
+func vhPut48(b []byte, v int64, b6, b7 byte) {
+	for i := 0; i < 6; i++ {
+		b[i] = byte(v >> (8 * uint(i)))
+	}
+	b[6], b[7] = b6, b7
+}
+
+// vhNodeBytes encodes one branch node as doc/spec/rac-spec.md lays it out.
+func vhNodeBytes(dptr []int64, ttag []byte, cptr []int64, clen []byte, stag []byte, cptrMax int64) []byte {
+	a := len(ttag)
+	b := make([]byte, 16*a+16)
+	b[0], b[1], b[2], b[3] = 0x72, 0xC3, 0x63, byte(a)
+	b[6], b[7] = 0, ttag[0]
+	for i := 1; i < a; i++ {
+		vhPut48(b[8*i:], dptr[i], 0, ttag[i])
+	}
+	vhPut48(b[8*a:], dptr[a], 0, byte(vhCodec>>56))
+	for i := 0; i < a; i++ {
+		vhPut48(b[8*a+8+8*i:], cptr[i], clen[i], stag[i])
+	}
+	vhPut48(b[16*a+8:], cptrMax, 1, byte(a))
+	c := crc32.ChecksumIEEE(b[6:])
+	c ^= c >> 16
+	b[4], b[5] = byte(c), byte(c>>8)
+	return b
+}
+
+// vhDeepFile is a hand-built valid RAC file with a three-level index whose inner branch
+// nodes have a non-zero DBias: root R (at the end) = [leaf "AB", branch M]; M = [branch L,
+// leaf "FGH"]; L = [leaf "CD", leaf "E"]. The writer only produces such trees for > 65025
+// chunks; the specification allows them (and builds them by concatenation).
+func vhDeepFile() ([]byte, []byte) {
+	frame := func(data string) []byte { return append([]byte{byte(len(data)), 0, 0}, data...) }
+	var f []byte
+	l := vhNodeBytes([]int64{0, 2, 3}, []byte{0xFF, 0xFF}, []int64{101, 106}, []byte{1, 1}, []byte{0xFF, 0xFF}, 116)
+	m := vhNodeBytes([]int64{0, 3, 6}, []byte{0xFE, 0xFF}, []int64{0, 110}, []byte{1, 1}, []byte{0xFF, 0xFF}, 116)
+	f = append(f, l...)
+	f = append(f, m...)
+	f = append(f, frame("AB")...)  // 96
+	f = append(f, frame("CD")...)  // 101
+	f = append(f, frame("E")...)   // 106
+	f = append(f, frame("FGH")...) // 110
+	r := vhNodeBytes([]int64{0, 2, 8}, []byte{0xFF, 0xFE}, []int64{96, 48}, []byte{1, 1}, []byte{0xFF, 0xFF}, 164)
+	f = append(f, r...)
+	return f, []byte("ABCDEFGH")
+}
+
 // VH_C14_Seq: a script of CALLS calls (Seek / SeekRange / Read, all arguments symbolic)
 // behaves like the same calls on the decompressed bytes.
 func VH_C14_Seq() {
 	payload := []byte{7, 0, 0, 0, 0, 9, 8, 0, 0, 0, 0, 0, 3, 4, 5, 0, 0}
-	file := vhBuildFile(payload)
+	var file []byte
+	if vParam("LAYOUT") == 3 {
+		file, payload = vhDeepFile()
+		if w := vhWalkFile(file); w.why != "" || len(w.leaves) != 4 || w.nodes != 3 {
+			vFail("build/deep-file-is-not-spec-valid")
+		}
+	} else {
+		file = vhBuildFile(payload)
+	}
 	size := int64(len(payload))
 	r := &Reader{ReadSeeker: &vhRS{data: file}, CompressedSize: int64(len(file)), CodecReaders: []CodecReader{&vhCodecR{}}}
 	pos, limit := int64(0), size // the model
